@@ -391,7 +391,7 @@ Section WithHash.
     rt_heads (fst w') = rt_heads (fst w) /\ rt_strands (fst w') = rt_strands (fst w) /\
     pv_shells (snd w') = pv_shells (snd w) /\ pv_plural_index (snd w') = pv_plural_index (snd w).
   Proof.
-    intros H. destruct (tick_ok _ _ _ _ H) as [fr [h [st' [e [_ [_ [_ [_ [_ [_ [_ [_ [_ [_ [Hrt Hpv]]]]]]]]]]]]]].
+    intros H. destruct (tick_ok _ _ _ _ H) as (fr & h & st' & e & _ & _ & _ & _ & _ & _ & _ & _ & _ & _ & Hrt & Hpv).
     rewrite Hrt, Hpv. cbn. repeat split; auto; apply alookup_aupdate_other; exact H0.
   Qed.
 
@@ -415,6 +415,16 @@ Section WithHash.
   Proof.
     intros Hwf H. destruct (tick_frame _ _ _ _ H) as [_ [_ [Hs _]]].
     intros sid s Hl. rewrite Hs in Hl. eapply Hwf; exact Hl.
+  Qed.
+
+  Lemma wf_strands_preserved w :
+    wf_strands (fst w) ->
+    (forall q w', fork_steps w q = Ok w' -> wf_strands (fst w')) /\
+    (forall hk p w', tick w hk p = Ok w' -> wf_strands (fst w')).
+  Proof.
+    intros H. split.
+    - intros q w' Hf. eapply wf_strands_fork; eauto.
+    - intros hk p w' Ht. eapply wf_strands_tick; eauto.
   Qed.
 
   Lemma lane_isolation_lemma w sid s hk p w' :
